@@ -571,10 +571,11 @@ def run():
                     w.close()
         for script in (recon if thorough else rng.sample(recon, 9)):
             for k in range(nsched // 2 if thorough else 3):
-                w, dl = run_one(script, rng, "fair" if k == 0 else "pct", False, "whole")
+                edge = (k % 3 == 1)       # configs with edge routing info: the preamble of EVERY login is framed the same way
+                w, dl = run_one(script, rng, "fair" if k == 0 else "pct", edge, "whole")
                 try:
                     problems, cutoff = verdict(w, dl, script)
-                    label = "%s(cut %s)->%s" % (script[0]["v"], script[0]["cut"], script[1]["v"])
+                    label = "%s(cut %s)->%s%s" % (script[0]["v"], script[0]["cut"], script[1]["v"], "+edge" if edge else "")
                     r.case((label, k, rng.random()))
                     for sig, desc in problems:
                         r.violation("reconnect-after-cutoff:%s" % sig, "%s schedule %d: %s" % (label, k, desc), {"script": script, "events": w.ev[-80:]})
